@@ -37,7 +37,14 @@ RTOL = 2e-5
 
 @st.composite
 def cases(draw, tier):
-  if draw(st.integers(0, 2)) == 0:
+  pop = draw(st.integers(0, 5))
+  if pop <= 1:
+    # every weight-carrying op of one shape re-uses the same constant
+    mspec = draw(G.model_specs(max_nodes=4, min_nodes=2, max_subgraphs=1,
+                               reuse_const=True, reuse_odds=0, dim_choices=[4],
+                               export_prob=False,
+                               ops=['FULLY_CONNECTED'] * 4 + ['TANH', 'ADD']))
+  elif pop == 2:
     # chains of weight-carrying ops with few distinct sizes: weights re-used by
     # several consumers with other rewritten ops in between
     mspec = draw(G.model_specs(max_nodes=10 if tier == 'thorough' else 6, min_nodes=3,
@@ -49,7 +56,29 @@ def cases(draw, tier):
     mspec = draw(G.model_specs(max_nodes=10 if tier == 'thorough' else 6,
                                max_subgraphs=2, reuse_const=True))
   names = engine.op_out_names(mspec)
-  if draw(st.integers(0, 1)):
+  groups = G.sharer_groups(mspec, min_rank=2) or G.sharer_groups(mspec)
+  if groups and (pop <= 1 or draw(st.integers(0, 2))):
+    # the consumers of one shared constant get individually drawn float-compute
+    # treatments (accepted only if compatible; then the model must still compute
+    # what its stored constants say)
+    import re as _re
+    rules = []
+    if draw(st.integers(0, 2)) == 0:
+      algo, c = draw(st.sampled_from(R.FLOAT_COMPUTE_CFGS))
+      rules.append(R.rule('.*', '*', algo, dict(c)))
+    # treatments of one storage width: mixing widths on one constant is a type
+    # conflict (C01/C15's subject); equal widths with different parameters or
+    # modes is the numeric question this property asks
+    bits = draw(st.sampled_from([8, 8, 4]))
+    pool = draw(st.permutations([ac for ac in R.FLOAT_COMPUTE_CFGS if ac[1]['w'][0] in (bits, 16)] +
+                                [(R.NOQ, R.DEFAULT)]))
+    grp = draw(st.permutations(draw(st.sampled_from(groups))))
+    # two (sometimes three) sharers get different treatments, the others stay
+    # as the base rule (or float) leaves them
+    for k, out_name in enumerate(grp[:draw(st.sampled_from([2, 2, 2, 3]))]):
+      algo, c = pool[k]
+      rules.append(R.rule('^' + _re.escape(out_name) + ';', '*', algo, dict(c)))
+  elif draw(st.integers(0, 1)):
     algo, c = draw(st.sampled_from(R.FLOAT_COMPUTE_CFGS))
     rules = [R.rule('.*', '*', algo, dict(c))]
   else:
@@ -271,5 +300,5 @@ def phases(tier):
   big = tier == 'thorough'
   return [
       {'name': 'float_compute', 'kind': 'hyp', 'strategy': lambda: cases(tier),
-       'run': check_case, 'examples': int((30000 if big else 2000) * k)},
+       'run': check_case, 'examples': int((30000 if big else 3000) * k)},
   ]
